@@ -77,7 +77,7 @@ class C11RoundTrip(Machine):
     def draw_config(self, rng):
         opts, req = draw_options(rng)
         return {"n_steps": rng.pick([2, 3, 4, 6, 8]), "n_ant": rng.randint(1, 4), "opts": opts,
-                "require_trigger": req, "noisy": rng.chance(0.5),
+                "require_trigger": req, "noisy": rng.pick([True, False, "mixed"]),
                 "fault_rate": rng.pick([0.0, 0.15, 0.3]), "checkpoint_rate": rng.pick([0.0, 0.1, 0.25]),
                 "dict_triggers": rng.chance(0.6), "mode": rng.pick(["w", "x", "a"])}
 
@@ -160,7 +160,8 @@ class C11RoundTrip(Machine):
         world.load_antennas(spec, reset_noise=spec.get("reset_noise", False))
         if self.cfg["noisy"]:
             for a in world.antennas:   # make sure noise masters exist like in a simulation
-                a.all_waveforms
+                if a.noisy:
+                    a.all_waveforms
         paths, pols = world.ray_args(spec)
         trig = world.trigger_arg(spec)
         # does this writer configuration ever look at the trigger argument?
